@@ -190,6 +190,11 @@ def run_case(seed, i, tier):
     forms.append(("all_on_stdin", base + ["-"], stdin_nl))
     k = rng.randrange(len(explicit) + 1)
     forms.append(("split_args_stdin", base + explicit[:k] + ["-"], ("\n".join(explicit[k:]) + "\n").encode("utf-8") if explicit[k:] else b""))
+    # '-' in the middle: the stdin paths take the place of the '-' among the arguments
+    j = rng.randrange(len(explicit) + 1)
+    lo, hi = min(j, k), max(j, k)
+    forms.append(("stdin_in_the_middle", base + explicit[:lo] + ["-"] + explicit[hi:],
+                  ("\n".join(explicit[lo:hi]) + ("\n" if rng.random() < 0.7 else "")).encode("utf-8") if explicit[lo:hi] else b""))
     prng = core.rng_for(seed, PROP, i, "plan")
     plan = core.random_plan(prng, max(1, len(explicit)), budget=3_000_000)
     plan.hashseed = rng.getrandbits(32)
